@@ -193,8 +193,27 @@ def gen_push(r):
             steps.append({"ev": "Lookup", "a": {"i": r.randrange(0, top + 1)}})
             continue
         c = r.choice(["valid", "valid", "valid", "short", "wrong-signer", "other-set", "swapped", "dup-index", "no-sigs",
-                      "duplicate", "duplicate", "future", "outsider-extra"])
-        if c == "valid":
+                      "duplicate", "duplicate", "future", "outsider-extra", "forged-copy", "forged-copy"])
+        if c == "forged-copy" and pushed_ok:
+            # the body of a VAA that was verified before (queued, or refused by a full queue, or already drained), with
+            # signatures that do not verify / name another set: a verdict about a body says nothing about these signatures
+            p0 = r.choice(pushed_ok)
+            kp = chain[p0["setIdx"]]
+            how = r.choice(["outsiders", "short", "none", "one-bad"])
+            idxs = [sg["idx"] for sg in p0["sigs"]]
+            if how == "short":
+                idxs = idxs[:max(0, q(len(kp)) - 1)]
+            elif how == "none":
+                idxs = []
+            v = mk_vaa(p0["id"], p0["setIdx"], kp, idxs, "forged-copy-of-a-verified-body")
+            if how == "outsiders":
+                for sg in v["sigs"]:
+                    sg["signer"] = "x1"
+            elif how == "one-bad" and v["sigs"]:
+                v["sigs"][r.randrange(len(v["sigs"]))]["signer"] = "x1"
+            if r.random() < 0.5:
+                steps.append({"ev": "Drain", "a": {}})
+        elif c == "valid":
             v = valid(si)
             pushed_ok.append(v)
         elif c == "short":
